@@ -1,6 +1,9 @@
 package main
 
 import (
+	"hash/crc32"
+	"hash/adler32"
+	"fmt"
 	"encoding/json"
 	"go/ast"
 	"go/constant"
@@ -25,8 +28,9 @@ import (
 // On the pinned tree there are no new constants and nothing is added.
 
 type litSet struct {
-	Ints []string `json:"ints"`
-	Strs []string `json:"strs"`
+	Ints    []string `json:"ints"`
+	Strs    []string `json:"strs"`
+	Imports []string `json:"imports"`
 }
 
 var mathConsts = map[string]string{
@@ -85,7 +89,7 @@ func constValue(e ast.Expr) (constant.Value, bool) {
 func literalsOfDir(dir string) litSet {
 	files, _ := filepath.Glob(filepath.Join(dir, "*.go"))
 	sort.Strings(files)
-	ints, strs := map[string]bool{}, map[string]bool{}
+	ints, strs, imps := map[string]bool{}, map[string]bool{}, map[string]bool{}
 	for _, fn := range files {
 		if strings.HasSuffix(fn, "_test.go") || strings.HasSuffix(fn, "verif_hook.go") {
 			continue
@@ -94,6 +98,11 @@ func literalsOfDir(dir string) litSet {
 		f, err := parser.ParseFile(fset, fn, nil, 0)
 		if err != nil {
 			continue
+		}
+		for _, im := range f.Imports {
+			if path, err := strconv.Unquote(im.Path.Value); err == nil {
+				imps[path] = true
+			}
 		}
 		ast.Inspect(f, func(n ast.Node) bool {
 			if _, ok := n.(*ast.ImportSpec); ok {
@@ -128,8 +137,12 @@ func literalsOfDir(dir string) litSet {
 	for k := range strs {
 		out.Strs = append(out.Strs, k)
 	}
+	for k := range imps {
+		out.Imports = append(out.Imports, k)
+	}
 	sort.Strings(out.Ints)
 	sort.Strings(out.Strs)
+	sort.Strings(out.Imports)
 	return out
 }
 
@@ -161,10 +174,11 @@ func dumpLiterals(path string) error {
 var newLitOnce sync.Once
 var newInts map[string][]string // directory key -> integer constants absent from the pinned tree
 var newStrs map[string][]string
+var newImports map[string][]string // directory key -> imported packages absent from the pinned tree
 
 func loadNewLiterals() {
 	newLitOnce.Do(func() {
-		newInts, newStrs = map[string][]string{}, map[string][]string{}
+		newInts, newStrs, newImports = map[string][]string{}, map[string][]string{}, map[string][]string{}
 		b, err := os.ReadFile(filepath.Join(verifRoot(), "snapshot", "source-literals.json"))
 		if err != nil {
 			return
@@ -191,6 +205,15 @@ func loadNewLiterals() {
 					newStrs[k] = append(newStrs[k], s)
 				}
 			}
+			oldImp := map[string]bool{}
+			for _, s := range snap[k].Imports {
+				oldImp[s] = true
+			}
+			for _, s := range cur.Imports {
+				if !oldImp[s] {
+					newImports[k] = append(newImports[k], s)
+				}
+			}
 		}
 	})
 }
@@ -203,6 +226,9 @@ func newLiteralNote() string {
 		if len(newInts[k])+len(newStrs[k]) > 0 {
 			parts = append(parts, k+": ints "+strings.Join(newInts[k], ",")+" strings "+strconv.Quote(strings.Join(newStrs[k], " | ")))
 		}
+	}
+	for _, k := range sortedImportKeys() {
+		parts = append(parts, k+": new imports "+strings.Join(newImports[k], ","))
 	}
 	if len(parts) == 0 {
 		return ""
@@ -334,5 +360,108 @@ func codeLiteralVariants(r *RNG, eco string, s string, capN int) []string {
 		}
 		out = cut
 	}
+	return out
+}
+
+func sortedImportKeys() []string {
+	var ks []string
+	for k, v := range newImports {
+		if len(v) > 0 {
+			ks = append(ks, k)
+		}
+	}
+	sort.Strings(ks)
+	return ks
+}
+
+// newHashImport: the tree under check imports a hash package (hash/fnv, hash/crc32, hash/maphash,
+// crypto/...) that the pinned tree does not, in this ecosystem's directory, vers or cmd.
+func newHashImport(eco string) bool {
+	loadNewLiterals()
+	for _, k := range []string{eco, "vers", "cmd"} {
+		for _, im := range newImports[k] {
+			if strings.HasPrefix(im, "hash/") || strings.HasPrefix(im, "crypto/") || im == "hash" {
+				return true
+			}
+		}
+	}
+	return false
+}
+
+var collMu sync.Mutex
+var collCache = map[string][][2]string{}
+
+// hashCollisionPairs: pairs of different accepted version texts of the ecosystem whose 32-bit
+// FNV-1a / FNV-1 / CRC-32 / Adler-32 checksums collide (found by a birthday search over about
+// 1.5 million generated texts): "identity by checksum" shortcuts treat them as the same text.
+// Only computed when the tree under check newly imports a hash package.
+func hashCollisionPairs(e *Eco, seed uint64) [][2]string {
+	collMu.Lock()
+	defer collMu.Unlock()
+	if c, ok := collCache[e.Name]; ok {
+		return c
+	}
+	r := NewRNG(seed, "collisions/"+e.Name)
+	gen := versionGens[e.Name]
+	type hf func(string) uint32
+	fnv1a := func(s string) uint32 {
+		h := uint32(2166136261)
+		for i := 0; i < len(s); i++ {
+			h ^= uint32(s[i])
+			h *= 16777619
+		}
+		return h
+	}
+	fnv1 := func(s string) uint32 {
+		h := uint32(2166136261)
+		for i := 0; i < len(s); i++ {
+			h *= 16777619
+			h ^= uint32(s[i])
+		}
+		return h
+	}
+	hs := []hf{fnv1a, fnv1, func(s string) uint32 { return crc32.ChecksumIEEE([]byte(s)) }, func(s string) uint32 { return adler32.Checksum([]byte(s)) }}
+	// plain numeric shapes collide as well as anything else and are accepted nearly everywhere
+	seen := make([]map[uint32]string, len(hs))
+	for i := range seen {
+		seen[i] = map[uint32]string{}
+	}
+	var out [][2]string
+	perHash := make([]int, len(hs))
+	uniq := map[string]bool{}
+	for n := 0; n < 1500000 && len(out) < 40; n++ {
+		var s string
+		if n%3 == 0 {
+			s = gen(r)
+		} else {
+			s = fmt.Sprintf("%d.%d.%d", r.Intn(40), r.Intn(100), r.Intn(100))
+			if n%6 == 1 {
+				s += fmt.Sprintf("-%d.el%d", r.Intn(400), r.Intn(10))
+			}
+			if e.Name == "golang" {
+				s = "v" + s
+			}
+		}
+		s = strings.TrimSpace(s)
+		if s == "" || uniq[s] {
+			continue
+		}
+		uniq[s] = true
+		for i, h := range hs {
+			if perHash[i] >= 10 {
+				continue
+			}
+			k := h(s)
+			if t, ok := seen[i][k]; ok && t != s {
+				if e.Parse(s).OK && e.Parse(t).OK {
+					out = append(out, [2]string{t, s})
+					perHash[i]++
+				}
+			} else {
+				seen[i][k] = s
+			}
+		}
+	}
+	collCache[e.Name] = out
 	return out
 }
